@@ -12,10 +12,48 @@ pub struct Case {
     pub cont: Container,
     /// (record index, target length / 1024): that record's bases are repeated to exceed buffer sizes
     pub stretch: Option<(u16, u8)>,
+    /// file name without the format suffix (may contain dots and format-like components)
+    #[serde(default = "default_stem")]
+    pub stem: String,
+    /// every record is written this many times (ids suffixed): many records / very large files
+    #[serde(default)]
+    pub copies: usize,
+    /// every sequence is repeated to at least this many bases
+    #[serde(default)]
+    pub min_len: usize,
 }
+
+fn default_stem() -> String {
+    "in".to_string()
+}
+
+pub const STEMS: &[&str] = &[
+    "in", "reads", "sample.fastq.contigs", "reads.fa.dedup", "ref.fna.mapped", "x.fq.trimmed", "GCF_000005845.2_ASM584v2_genomic", "a.gz.b", ".hidden", "run1.fasta.2024", "UPPER.FA.x", "name with space",
+];
 
 pub fn materialise(c: &Case) -> Vec<Rec> {
     let mut recs = c.recs.clone();
+    if c.min_len > 0 {
+        for r in recs.iter_mut() {
+            if !r.seq.0.is_empty() {
+                let unit = r.seq.0.clone();
+                let mut s = Vec::with_capacity(c.min_len + unit.len());
+                while s.len() < c.min_len {
+                    s.extend_from_slice(&unit);
+                }
+                r.seq.0 = s;
+            }
+        }
+    }
+    if c.copies > 1 {
+        let base = recs.clone();
+        recs = Vec::with_capacity(base.len() * c.copies);
+        for j in 0..c.copies {
+            for r in &base {
+                recs.push(Rec { id: format!("{}.{}", r.id, j), desc: r.desc.clone(), seq: r.seq.clone() });
+            }
+        }
+    }
     if let Some((i, kb)) = c.stretch {
         if !recs.is_empty() {
             let idx = crate::util::idx16(i, recs.len());
@@ -36,7 +74,7 @@ pub fn check_case(c: &Case) -> Verdict {
     let mut v = Verdict::new();
     let recs = materialise(c);
     let dir = crate::scratch_dir();
-    let path = io::write_input(dir.path(), "in", &recs, &c.cont);
+    let path = io::write_input(dir.path(), &c.stem, &recs, &c.cont);
     let ps = io::path_str(&path);
     let n = recs.len();
     let wrapped = matches!(c.cont.format, Format::Fasta { wrap: Some(_) });
@@ -52,6 +90,9 @@ pub fn check_case(c: &Case) -> Verdict {
     v.class_if(members >= 2, "gz-members>=2");
     v.class_if(long_line, "line>8KiB");
     v.class_if(text_len > 65536, "file>64KiB");
+    v.class_if(text_len > (16 << 20), "file>16MiB");
+    v.class_if(n > 65535, "records>65535");
+    v.class_if(c.stem.contains('.'), "dotted-stem");
     v.class_if(n == 0, "zero-records");
     v.class_if(recs.iter().any(|r| r.desc.is_some()), "has-description");
     v.nontrivial = n >= 2 && (wrapped || c.cont.crlf || !c.cont.final_newline || empty_rec || members >= 2 || long_line);
@@ -125,15 +166,51 @@ impl Leg for Files {
     const NAME: &'static str = "files";
     fn strategy(tier: Tier) -> BoxedStrategy<Case> {
         let p = RecParams {
-            max_records: tier.pick(30, 200),
+            max_records: tier.pick(30, 80),
             scale: 20,
-            max_len: tier.pick(400, 3000),
+            max_len: tier.pick(400, 1500),
             degenerate_w: 2,
             bounds: [1, 60, 0],
             nuc_only: false,
         };
-        (gen::records_in_container(p), prop_oneof![5 => Just(None), 1 => (any::<u16>(), 0u8..60).prop_map(Some)])
-            .prop_map(|((recs, cont), stretch)| Case { recs, cont, stretch })
+        (gen::records_in_container(p), prop_oneof![5 => Just(None), 1 => (any::<u16>(), 0u8..60).prop_map(Some)], prop::sample::select(STEMS.to_vec()))
+            .prop_map(|((recs, cont), stretch, stem)| Case { recs, cont, stretch, stem: stem.to_string(), copies: 0, min_len: 0 })
+            .boxed()
+    }
+    fn check(c: &Case) -> Verdict {
+        check_case(c)
+    }
+}
+
+/// very large files: tens of MiB of bases in few records, or > 65535 records
+pub struct Huge;
+impl Leg for Huge {
+    type Case = Case;
+    const NAME: &'static str = "huge-files";
+    fn strategy(_tier: Tier) -> BoxedStrategy<Case> {
+        let p = RecParams { max_records: 6, scale: 20, max_len: 120, degenerate_w: 1, bounds: [1, 60, 0], nuc_only: false };
+        // (copies, min_len): 20-40 MiB in a few dozen records, or 70 000+ tiny records
+        let shape = prop_oneof![
+            2 => (4usize..=10, prop::sample::select(vec![400_000usize, 700_000, 1_500_000])),
+            1 => (1usize..=2, Just(17_500_000usize)),
+            2 => (14_000usize..=30_000, Just(0usize)),
+        ];
+        (gen::records_exact(p, 5), gen::container(false), shape, prop::sample::select(STEMS.to_vec()))
+            .prop_map(|(recs, cont, (copies, min_len), stem)| {
+                // at most two gzip members and no wrapping below 60 keep the cost of one case around a second
+                let mut cont = cont;
+                if let Some(g) = cont.gz.as_mut() {
+                    g.truncate(2);
+                }
+                if let crate::gen::Format::Fasta { wrap: Some(w) } = &mut cont.format {
+                    *w = (*w).max(60);
+                }
+                let mut recs = recs;
+                if min_len >= 10_000_000 {
+                    recs.truncate(2);
+                }
+                Case { recs, cont, stretch: None, stem: stem.to_string(), copies, min_len }
+            })
             .boxed()
     }
     fn check(c: &Case) -> Verdict {
@@ -142,13 +219,16 @@ impl Leg for Files {
 }
 
 pub fn run(ctx: &mut Ctx) {
-    let n = ctx.share(ctx.tier.pick(24_000, 400_000));
+    let n = ctx.share(ctx.tier.pick(16, 160));
+    ctx.run_leg::<Huge>(n, false, 8);
+    let n = ctx.share(ctx.tier.pick(24_000, 160_000));
     ctx.run_leg::<Files>(n, false, 600);
 }
 
 pub fn replay(leg: &str, case: &serde_json::Value) -> Option<Result<Verdict, String>> {
     match leg {
         "files" => Some(crate::engine::replay_leg::<Files>(case)),
+        "huge-files" => Some(crate::engine::replay_leg::<Huge>(case)),
         _ => None,
     }
 }
